@@ -1078,7 +1078,7 @@ bool Observer::overflowed() const { return tl_vt && tl_vt->obs_cnt > tl_vt->obs_
 void count_fault(int kind) { G.res.faults[kind]++; }
 void probe(int id) { G.probes[id]++; }
 uint64_t probe_count(int id) { return G.probes[id]; }
-void note_nontrivial() { G.nontrivial = true; }
+void note_nontrivial() { G.res.forced_nontrivial = true; }
 void set_abort_callback(void (*cb)(const Result &)) { G.abort_cb = cb; }
 
 // raw-mode atomic inside an observer scope: count and bail out of endless raw spinning
@@ -1210,6 +1210,8 @@ Result run(const Config &cfg, Fn fn, void *arg)
 // =================================================================================================
 using namespace dsim;
 
+extern "C" char __data_start, _end;
+
 namespace
 {
 inline bool active() { return tl_vt != nullptr && tl_raw == 0 && G.run_active; }
@@ -1319,13 +1321,14 @@ inline void plain_access(void *p, size_t n, bool write)
   if (me == nullptr || !G.run_active) return;
   const auto a = reinterpret_cast<uintptr_t>(p);
   if (a - kArenaBase < kArenaSize) check_access(a, n, write ? "write" : "read");
-  if (G.wr_hi && a < G.wr_hi && a + n > G.wr_lo) {
-    if (write) G.wr_writes++;
-    if (G.cfg.plain_sched && tl_raw == 0) {
-      sched_point(me, write ? OP_PLAIN_W : OP_PLAIN_R, a);
-      G.res.faults[kFPlainPreempt]++;
-      ring_push(me, write ? OP_PLAIN_W : OP_PLAIN_R, a, static_cast<int>(n), 0, 0, 0, write);
-    }
+  if (G.wr_hi && a < G.wr_hi && a + n > G.wr_lo && write) G.wr_writes++;
+  // mode `plain` (C19): inside an API bracket every plain access to memory that other vthreads can reach
+  // (arena heap, static storage) is a scheduling point
+  if (G.cfg.plain_sched && tl_raw == 0 && me->in_api &&
+      (a - kArenaBase < kArenaSize || (a >= reinterpret_cast<uintptr_t>(&__data_start) && a < reinterpret_cast<uintptr_t>(&_end)))) {
+    sched_point(me, write ? OP_PLAIN_W : OP_PLAIN_R, a);
+    G.res.faults[kFPlainPreempt]++;
+    ring_push(me, write ? OP_PLAIN_W : OP_PLAIN_R, a, static_cast<int>(n), 0, 0, 0, write);
   }
 }
 }  // namespace
